@@ -52,7 +52,30 @@ func fmtWeight(n, d int64) string {
 // generated case be replayed with grammar-legal but unusual tokens.
 type vSpelling struct {
 	tag map[string]string
-	sep []string // separators between words of a command
+	opt map[string]string // whole option strings
+	sep []string          // separators between words of a command
+}
+
+func (sp *vSpelling) optOf(o string) string {
+	if sp != nil && sp.opt != nil {
+		if v, ok := sp.opt[o]; ok {
+			return v
+		}
+	}
+	return o
+}
+
+// optsMap splits an option string the documented way: fields "k=v", the key ends at the FIRST '='.
+func optsMap(o string) map[string]string {
+	m := map[string]string{}
+	for _, f := range strings.Fields(o) {
+		if i := strings.IndexByte(f, '='); i >= 0 {
+			m[f[:i]] = f[i+1:]
+		} else {
+			m[f] = ""
+		}
+	}
+	return m
 }
 
 func (sp *vSpelling) tagOf(t string) string {
@@ -108,7 +131,7 @@ func cmdText(c vCmd, sp *vSpelling, k int) string {
 		tags()
 		if c.Opts != "" {
 			w("opts")
-			w(`"` + c.Opts + `"`)
+			w(`"` + sp.optOf(c.Opts) + `"`)
 		}
 	case "del":
 		w("route")
@@ -162,7 +185,7 @@ func cmdDef(c vCmd, sp *vSpelling) RouteDef {
 		d.Weight = ratio(c.Wn, c.Wd)
 	}
 	if c.Opts != "" {
-		d.Opts = parseOpts(c.Opts)
+		d.Opts = optsMap(sp.optOf(c.Opts))
 	}
 	return d
 }
@@ -170,12 +193,14 @@ func cmdDef(c vCmd, sp *vSpelling) RouteDef {
 // ---- projection of a real table
 
 type pTarget struct {
-	Svc    string
-	Dst    string
-	Fixed  float64
-	Tags   []string
-	Opts   string
-	Weight float64
+	OptsMap                 map[string]string
+	Strip, Prepend, HostOpt string
+	Svc                     string
+	Dst                     string
+	Fixed                   float64
+	Tags                    []string
+	Opts                    string
+	Weight                  float64
 }
 
 func optsString(m map[string]string) string {
@@ -217,7 +242,7 @@ func project(t Table) (map[string][]pTarget, []string) {
 					fw = 0
 				}
 				ts = append(ts, pTarget{Svc: tg.Service, Dst: tg.URL.String(), Fixed: fw, Tags: tg.Tags,
-					Opts: optsString(tg.Opts), Weight: tg.Weight})
+					Opts: optsString(tg.Opts), Weight: tg.Weight, OptsMap: tg.Opts, Strip: tg.StripPath, Prepend: tg.PrependPath, HostOpt: tg.Host})
 			}
 			out[key] = ts
 		}
@@ -265,8 +290,17 @@ func diffTable(got map[string][]pTarget, want vTable, sp *vSpelling, effective b
 			if !eqTags(g.Tags, sp.tags(w.Tags)) {
 				return "target-tags", fmt.Sprintf("route %q target %d tags %q, want %q", k, i, g.Tags, sp.tags(w.Tags))
 			}
-			if g.Opts != w.Opts {
-				return "target-opts", fmt.Sprintf("route %q target %d opts %q, want %q", k, i, g.Opts, w.Opts)
+			wantOpts := optsMap(sp.optOf(w.Opts))
+			if len(wantOpts) != len(g.OptsMap) {
+				return "target-opts", fmt.Sprintf("route %q target %d opts %q, want %q", k, i, g.Opts, sp.optOf(w.Opts))
+			}
+			for ok, ov := range wantOpts {
+				if gv, has := g.OptsMap[ok]; !has || gv != ov {
+					return "target-opts", fmt.Sprintf("route %q target %d opts %q, want %q", k, i, g.Opts, sp.optOf(w.Opts))
+				}
+			}
+			if g.Strip != wantOpts["strip"] || g.Prepend != wantOpts["prepend"] || g.HostOpt != wantOpts["host"] {
+				return "target-opt-fields", fmt.Sprintf("route %q target %d strip=%q prepend=%q host=%q, want opts %q", k, i, g.Strip, g.Prepend, g.HostOpt, sp.optOf(w.Opts))
 			}
 			if math.Abs(g.Fixed-ratio(w.Fwn, w.Fwd)) > wTol {
 				return "fixed-weight", fmt.Sprintf("route %q target %d fixed weight %v, want %d/%d", k, i, g.Fixed, w.Fwn, w.Fwd)
